@@ -81,6 +81,13 @@ theorem num_keep (k i : Nat) : (!(i + 1 != k) && k != 0) = (k == i + 1) := by
     have h2 : (i + 1 != k) = true := by simp; omega
     rw [h1, h2]; simp
 
+theorem keep_eq (pv : PVal) (i : Nat) :
+    (match pv with | .num k => !(i + 1 != k) && k != 0 | .bool b => b) =
+      (match pv with | .num k => k == i + 1 | .bool b => b) := by
+  cases pv with
+  | num k => exact num_keep k i
+  | bool b => rfl
+
 theorem predicates1_eq (d : Doc) (p : Pred) (l : List Nat) :
     predicates1 d p l = applyPred d p l := by
   cases p with
@@ -91,9 +98,16 @@ theorem predicates1_eq (d : Doc) (p : Pred) (l : List Nat) :
     · have : l = [] := List.eq_nil_of_length_eq_zero hl
       subst this; simp
     · rw [if_neg hl]
-      simp only [predTrue, predVal]
-      try (congr 2; funext ⟨m, i⟩; simp)
-      try (exact num_keep _ i)
+      simp only [predTrue]
+      congr 2
+      all_goals
+        funext x
+        obtain ⟨m, i⟩ := x
+        simp only []
+        generalize predVal d _ m (i + 1) l.length = pv
+        cases pv with
+        | num k => exact num_keep k i
+        | bool b => rfl
 
 
 theorem predicates_eq (d : Doc) (ps : List Pred) (l : List Nat) :
